@@ -70,6 +70,13 @@ CLAIMED["C17"] = {
     "technique": "deterministic simulation: seeded histories on shared mutable objects with creation-time snapshots (source-intact invariant), reference marginal, and store steps on a fault-injecting simulated disk",
 }
 
+CLAIMED["C20"] = {
+    "text": "Seeded search over histories of value-returning library calls (about 90 operations: circuit and gate composition, binding, inversion, control, serialisation, evaluation, splitting; operator arithmetic with operators and numbers on both sides, powers, simplify, conjugation, dict and sparse conversion, reversal, repr, ==, hash, properties; measurement counts, distributions, expectation values, parities, construction from counts and from a distribution, save; distribution marginals, distances, save; wavefunction readers, flips, sampling, binding, save; simulator calls) issued by 1-3 clients on one shared pool of objects and plain containers, with results joining the pool so that alias chains form. The whole pool (not only the arguments) is snapshotted through public attributes, iteration and repr before and after each call, and each call is made twice under the same simulated random stream (real numpy generators re-seeded identically, or adversarial legal draws) and, for saves, a fault-injecting simulated disk; results of the two calls must be canonically equal. Evidence over sampled histories, not proof.",
+    "design_ref": "DESIGN.md §3 C20",
+    "note": "Trusted: the canonical snapshot functions (what counts as observable), SimRNG re-seeding, SimFS. Calls that raise are not judged (the property speaks of operations that return); lazily cached private fields are not observable state. Real: every operation listed in evidence.real_entry_points_called.",
+    "technique": "deterministic simulation: seeded call histories on a shared object pool with whole-pool before/after snapshots (aliasing visible), double execution under an identical simulated random stream, disk faults on save steps",
+}
+
 PENDING = {pid: "applicable (DESIGN.md §3) but its check is not built yet at this commit; not claimed until it is" for pid in
            ["C01", "C04", "C05", "C11", "C13", "C14", "C15", "C17", "C20"] if pid not in CLAIMED}
 
